@@ -161,6 +161,7 @@ func syscallOrder(r *ev.Run, kind, scratch string) {
 	}
 	r.Extra("syscall_order_"+kind, map[string]int{"acks": acks, "receive_acks_checked": recvAcks, "fsyncs_seen": fsyncs, "blob_data_writes_seen": dataWrites})
 	if recvAcks > 0 && dataWrites > 0 {
+		sampleFirst(r, "syscall-order", map[string]any{"case": "strace -f -y of a child running 40 receive/remove ops on " + kind, "receive_acks_checked": recvAcks, "blob_data_writes": dataWrites, "fsyncs": fsyncs})
 		r.Note("events", "syscall-order-"+kind)
 		r.Distinct("syscall-order|" + kind)
 	} else {
